@@ -49,6 +49,36 @@ fn scenario(run: &mut Run) {
     }
 }
 
+/// Large-corpus phase (NOT-complement guard at 10 000 / 10 001 documents): counters and violations.
+fn large_report(run: &mut Run, out: tfs::LargeOut, cpu_s: f64) {
+    run.add("evaluations", out.evaluations);
+    run.add("large_corpus_tree_checks", out.trees);
+    run.add("traces_validated_against_impl", 1);
+    println!(
+        "  [large-corpus] documents 10000 then 10001: tree checks={} answered={} refused={} operand-order classes={} evals={} failures={} {:.1}s (own thread)",
+        out.trees, out.answered, out.refused, out.order_classes, out.evaluations, out.failures.len(), cpu_s
+    );
+    run.set(
+        "large_corpus",
+        json!({"tree_checks": out.trees, "answered": out.answered, "refused_by_not_complement_guard": out.refused,
+               "operand_order_classes": out.order_classes, "seconds_on_own_thread": (cpu_s * 10.0).round() / 10.0}),
+    );
+    // one violation per failure class (the first case of each)
+    let mut seen = std::collections::BTreeSet::new();
+    for (kind, summary, replay) in out.failures {
+        if seen.insert(kind.clone()) {
+            println!("large-corpus: {summary}");
+            run.violation(vcore::Violation { signature: format!("C11/hist/{kind}"), summary, replay });
+        }
+    }
+}
+
+fn timed_large(only: Option<(usize, String)>) -> (tfs::LargeOut, f64) {
+    let t = std::time::Instant::now();
+    let out = tfs::large_corpus_scenario(only);
+    (out, t.elapsed().as_secs_f64())
+}
+
 fn main() {
     let mut run = Run::from_args("C11", "hist", "model_checking");
     let deep_depth = run.tier.pick(2, 3);
@@ -59,6 +89,12 @@ fn main() {
         };
         if doc["replay"]["scenario"].as_str() == Some("multiword-repeat") {
             scenario(&mut run);
+        } else if doc["replay"]["scenario"].as_str() == Some("large-corpus") {
+            let only = doc["replay"]["query"]
+                .as_str()
+                .map(|q| (doc["replay"]["docs"].as_u64().unwrap_or(0) as usize, q.to_string()));
+            let (out, s) = timed_large(only);
+            large_report(&mut run, out, s);
         } else {
             engine::replay::<Tfs>(&mut run, "hist", &doc, || Mode::Hist, deep_depth);
         }
@@ -96,6 +132,8 @@ fn main() {
         ],
     };
     scenario(&mut run);
+    // own phase on its own thread, next to the history search; joined before the report
+    let large = std::thread::spawn(|| timed_large(None));
     let total = run.budget_s * 0.92;
     let mut outs = Vec::new();
     let mut carry = 0.0;
@@ -116,6 +154,10 @@ fn main() {
     if std::env::var("VINDEX_PROF").is_ok() {
         let p: Vec<f64> = engine::PROF.iter().map(|a| a.load(std::sync::atomic::Ordering::Relaxed) as f64 / 1e9).collect();
         println!("  profile (s): start+ops {:.2}, live battery {:.2}, probe flush {:.2}, probe load+battery {:.2}, key {:.2}, crash {:.2}", p[0], p[1], p[2], p[3], p[4], p[5]);
+    }
+    match large.join() {
+        Ok((out, s)) => large_report(&mut run, out, s),
+        Err(_) => vcore::report::machinery("large-corpus phase panicked"),
     }
     run.set("runs", json!(outs));
     run.set(
@@ -153,6 +195,24 @@ fn main() {
          its earlier removal with non-original text left behind; counters, lengths and documents that are not live unchanged) and, \
          when that agrees, is kept in the frontier; its extensions are checked against the adjusted reference (signature prefix \
          past-known:). Counter states_behind_recorded_findings = states kept that way",
+    );
+    run.rule(
+        "ranking differential, in the light battery of EVERY state (live and after flush + load_all, also in the crash part) and in the \
+         deep battery: the full list of every term search and every boolean shape (deep: every 1-/2-word search and every depth<=2 \
+         tree) must be the list a FRESH index returns that got the model's current documents by plain inserts: same ids, same order, \
+         scores equal within a relative 1e-5 (N, document lengths and average length of both are equal, checked bit-exactly before); \
+         skipped for exactly the queries that mention a token of which a live document has a stale posting entry although its text \
+         does not contain it (recorded finding C11/stale-posting-of-reinserted-id)",
+    );
+    run.rule(
+        "large-corpus phase (one index, default configuration, built once: 10 000 documents whose texts cycle through the 6 texts, \
+         then document 10 001): every tree of a battery of 10 literals {term, NOT term}, AND/OR of every ordered pair of literals, \
+         AND/OR of 3 term triples x 6 operand orders x 8 negation masks, (NOT a AND b) one level down under OR / AND / NOT in both \
+         operand orders, through try_search_advanced AND search_advanced with k = n+1: the answer is the model's set algebra with \
+         finite scores >= 0 in (score desc, id asc) order, or - only above 10 000 documents, only with the NOT-complement message, \
+         only when the tree needs the complement of a NOT as a set of its own (a NOT alone, under OR, or in an AND of NOTs only; \
+         defined without regard to operand order) - a refusal, which search_advanced turns into the empty list; trees that differ \
+         in operand order only are all refused or all answered",
     );
     run.assume("the model tokenizes with the crate's own collect_tokens(default_tokenizer()), as the property prescribes; the tokenizer itself is trusted");
     run.assume("scoring is a function of postings, doc_tokens and total_tokens; the deep battery therefore runs once per distinct model state (model state includes the stale posting entries allowed by remove-with-non-original-text)");
